@@ -200,4 +200,135 @@ def forUp {α : Type} (step : α → Byte → α) : (n : Nat) → (rest : List B
 def mmcCrc7M (mem : List Byte) (len : BitVec 8) : Option (BitVec 8) :=
   (forUp mmcStep len.toNat mem (0#8 : BitVec 8)).map fun (c : BitVec 8) => c >>> 1
 
+/-! # Extension round 3: index-level models with C-width counters and an access log
+
+The routines once more, this time with the pointer as an explicit byte offset
+into a memory that is seen only through a read function `rd : Nat → Option
+Byte` (`none` = the offset is outside the mapped extent: what ASan / a guard
+page reports), with **every counter at its C width** and with every access
+reported to a log (`emit off log`).  The log type is a parameter: `List Ev`
+for the theorems about the order of the reads, `Unit` for the driver's long
+(1 MiB) messages.  The same definitions run over a `List Byte` (`listRd`, for
+the theorems) and over an `Array Byte` (`arrRd`, O(1) indexing: the driver). -/
+
+abbrev Rd := Nat → Option Byte
+def listRd (mem : List Byte) : Rd := fun i => mem[i]?
+def arrRd (mem : Array Byte) : Rd := fun i => mem[i]?
+
+/-- a memory access event: the routines of crc.c only ever read their buffer,
+but a store must be expressible for "never writes" to say something -/
+inductive Ev
+  | rd (off : Nat)
+  | wr (off : Nat)
+deriving DecidableEq, Repr
+
+/-- the log used by the theorems: events in program order (newest last) -/
+def logEv (off : Nat) (t : List Ev) : List Ev := t ++ [Ev.rd off]
+/-- the log that records nothing (long messages in the driver) -/
+def logNone (_ : Nat) (t : Unit) : Unit := t
+
+/-- `while (len--) { crc = step(crc, *addr++); }` — `len` a `w`-bit unsigned
+(test, decrement mod `2^w`), `addr` the offset of the pointer, the read
+`*addr` is logged and faults outside the mapped extent. -/
+def whileDecG {w : Nat} {α τ : Type} (step : α → Byte → α) (rd : Rd) (emit : Nat → τ → τ) :
+    (fuel : Nat) → (len : BitVec w) → (addr : Nat) → α → τ → Option (α × τ)
+  | 0, _, _, _, _ => none
+  | f + 1, len, addr, crc, t =>
+    if len = 0 then some (crc, t) else
+    match rd addr with
+    | none => none
+    | some b => whileDecG step rd emit f (len - 1) (addr + 1) (step crc b) (emit addr t)
+
+/-- `igris_crc8_table(addr, uint8_t len, crc_init)` -/
+def crc8TableG {τ : Type} (rd : Rd) (emit : Nat → τ → τ) (len seed : BitVec 8) (t : τ) : Option (BitVec 8 × τ) :=
+  whileDecG tblStep rd emit 256 len 0 seed t
+/-- `igris_crc8(data, uint8_t len, crc_init)` -/
+def crc8G {τ : Type} (rd : Rd) (emit : Nat → τ → τ) (len seed : BitVec 8) (t : τ) : Option (BitVec 8 × τ) :=
+  whileDecG dowStep rd emit 256 len 0 seed t
+/-- `igris_crc16(data, uint16_t length, crc_init)` -/
+def crc16G {τ : Type} (rd : Rd) (emit : Nat → τ → τ) (len seed : BitVec 16) (t : τ) : Option (BitVec 16 × τ) :=
+  whileDecG crc16Step rd emit 65536 len 0 seed t
+
+/-- `for (unsigned i = 0; i < length; i++) { crc ^= message[i]; … }` —
+`i` is `unsigned` (32 bits), `length` a `uint8_t` promoted for the comparison -/
+def forUpG {α τ : Type} (step : α → Byte → α) (rd : Rd) (emit : Nat → τ → τ) (length : BitVec 8) :
+    (fuel : Nat) → (i : BitVec 32) → α → τ → Option (α × τ)
+  | 0, _, _, _ => none
+  | f + 1, i, crc, t =>
+    if i < length.zeroExtend 32 then
+      match rd i.toNat with
+      | none => none
+      | some b => forUpG step rd emit length f (i + 1) (step crc b) (emit i.toNat t)
+    else some (crc, t)
+
+/-- `igris_mmc_crc7(message, const uint8_t length)` -/
+def mmcCrc7G {τ : Type} (rd : Rd) (emit : Nat → τ → τ) (len : BitVec 8) (t : τ) : Option (BitVec 8 × τ) :=
+  (forUpG mmcStep rd emit len 257 0 (0#8 : BitVec 8) t).map fun (c, t) => (c >>> 1, t)
+
+/-- `memcpy(&word, pData + off, n)`: the `n` source bytes, each read logged -/
+def memcpyG {τ : Type} (rd : Rd) (emit : Nat → τ → τ) : (off n : Nat) → τ → Option (List Byte × τ)
+  | _, 0, t => some ([], t)
+  | off, n + 1, t =>
+    match rd off with
+    | none => none
+    | some b =>
+      match memcpyG rd emit (off + 1) n (emit off t) with
+      | none => none
+      | some (bs, t) => some (b :: bs, t)
+
+/-- `for (uint32_t i = 0; i < bodySize; i++) { memcpy(&word, pData + 4 * i, 4); … }`:
+`i`, `bodySize` and the product `4 * i` are 32-bit unsigned -/
+def crc32LoopG {τ : Type} (rd : Rd) (emit : Nat → τ → τ) (bodySize : BitVec 32) :
+    (fuel : Nat) → (i : BitVec 32) → BitVec 32 → τ → Option (BitVec 32 × τ)
+  | 0, _, _, _ => none
+  | f + 1, i, crc, t =>
+    if i < bodySize then
+      match memcpyG rd emit (4#32 * i).toNat 4 t with
+      | none => none
+      | some (bs, t) => crc32LoopG rd emit bodySize f (i + 1) (wordStep crc (padWord bs)) t
+    else some (crc, t)
+
+/-- `igris_crc32(data, uint32_t length, crc_init)`:
+`uint32_t bodySize = length / 4, tailSize = length % 4;` word loop; `if (tailSize)
+{ word = 0; memcpy(&word, pData + 4 * bodySize, tailSize); … }` -/
+def crc32G {τ : Type} (rd : Rd) (emit : Nat → τ → τ) (length seed : BitVec 32) (t : τ) : Option (BitVec 32 × τ) :=
+  let bodySize : BitVec 32 := length / 4
+  let tailSize : BitVec 32 := length % 4
+  match crc32LoopG rd emit bodySize (2 ^ 30) 0 seed t with
+  | none => none
+  | some (crc, t) =>
+    if tailSize ≠ 0 then
+      match memcpyG rd emit (4#32 * bodySize).toNat tailSize.toNat t with
+      | none => none
+      | some (bs, t) => some (wordStep crc (padWord bs), t)
+    else some (crc, t)
+
+/-! ### the streaming CRC-8 as an object that is re-used
+
+`uint8_t crc;` lives in the caller (gstuff keeps it in its context).  An
+operation either (re-)initialises it or feeds one `char`. -/
+inductive StrmOp
+  | init (v : BitVec 8)
+  | feed (c : Byte)
+deriving DecidableEq, Repr
+
+def strmRun (crc : BitVec 8) : List StrmOp → BitVec 8
+  | [] => crc
+  | .init v :: rest => strmRun v rest
+  | .feed c :: rest => strmRun (strmStep crc c) rest
+
+/-! ### byte tables for the driver (long messages): the byte step of each
+8-bit routine depends on `crc ^ byte` only, the 16-bit one on `(crc >> 8) ^
+byte`; the tables are computed from the step functions of the model when the
+driver starts (`R3Lemmas`: the table step = the model's step). -/
+def mkTab8 (f : BitVec 8 → BitVec 8) : Array (BitVec 8) := Array.ofFn (n := 256) fun i => f (BitVec.ofNat 8 i.val)
+def strmTab : Array (BitVec 8) := mkTab8 (strmStep 0)
+def dowTab : Array (BitVec 8) := mkTab8 (dowStep 0)
+def tblTab : Array (BitVec 8) := mkTab8 (tblStep 0)
+def mmcTab : Array (BitVec 8) := mkTab8 (mmcStep 0)
+def c16Tab : Array (BitVec 16) := Array.ofFn (n := 256) fun i => crc16Step 0 (BitVec.ofNat 8 i.val)
+def tabStep8 (tab : Array (BitVec 8)) (crc b : BitVec 8) : BitVec 8 := tab.getD (crc ^^^ b).toNat 0
+def tabStep16 (crc : BitVec 16) (b : Byte) : BitVec 16 :=
+  (crc <<< 8) ^^^ c16Tab.getD ((crc >>> 8).truncate 8 ^^^ b).toNat 0
+
 end Igris.C17
